@@ -262,6 +262,15 @@ static void do_reg(int argc, char **argv)
         l = conf_register_string_list_sv(parent, leaf, &sv);
         l->base.hook = hook_logger;
         string_vector_clear_int(&sv);
+    } else if (!strcmp(argv[1], "listv") && argc >= 4) {
+        /* the variadic twin of the above (what src/main.c uses for library_path and modules): up to three default items */
+        struct conf_node_string_list *l;
+        int n = atoi(argv[3]);
+        char *d0 = (n > 0 && argc > 4) ? keep(pct_decode(argv[4], NULL)) : NULL;
+        char *d1 = (n > 1 && argc > 5) ? keep(pct_decode(argv[5], NULL)) : NULL;
+        char *d2 = (n > 2 && argc > 6) ? keep(pct_decode(argv[6], NULL)) : NULL;
+        l = conf_register_string_list(parent, leaf, d0, d1, d2, (const char *)NULL);
+        l->base.hook = hook_logger;
     } else if (!strcmp(argv[1], "inaddr") && argc >= 5) {
         int hn, sn;
         char *h = keep(pct_decode(argv[3], &hn));
